@@ -7,6 +7,7 @@ import (
 	"fmt"
 	"sort"
 	"strconv"
+	"strings"
 )
 
 // Op is one container operation.  A and B are operand variable indices
@@ -242,6 +243,12 @@ func (op Op) expr() string {
 		return "(keys " + a + ")"
 	case "get-k":
 		return `(get ` + a + ` "k")`
+	case "it-list":
+		return "(list 3 1)"
+	case "it-vector":
+		return "(vector 3 1)"
+	case "get-ksym":
+		return "(get " + a + " 'k)"
 	case "aref":
 		return "(aref " + a + " " + i + ")"
 	case "first":
@@ -251,6 +258,9 @@ func (op Op) expr() string {
 	}
 	if p := producerOf(op.K); p != nil {
 		return p.src
+	}
+	if st := storerOf(op.K); st != nil {
+		return strings.ReplaceAll(st.src, "{X}", a)
 	}
 	panic("harness: unknown op " + op.K)
 }
@@ -646,7 +656,11 @@ func apply(w0 *world, op Op) (outs []*world, expectErr bool) {
 			return one(w, A.ents[i].v)
 		}
 		return one(w, w.newNil())
-	case "get-k":
+	case "it-list":
+		return one(w, w.newSeq(kList, ints(3, 1)))
+	case "it-vector":
+		return one(w, w.newSeq(kVec, ints(3, 1)))
+	case "get-k", "get-ksym":
 		if i := A.find("k"); i >= 0 {
 			return one(w, A.ents[i].v)
 		}
@@ -664,6 +678,9 @@ func apply(w0 *world, op Op) (outs []*world, expectErr bool) {
 	}
 	if p := producerOf(op.K); p != nil {
 		return one(w, p.build(w))
+	}
+	if st := storerOf(op.K); st != nil {
+		return one(w, st.build(w, av))
 	}
 	panic("harness: no meaning for op " + op.K)
 }
@@ -941,7 +958,7 @@ func (op Op) isConstructor() bool { return op.A < 0 }
 // name, a stored element, bytes "returned as-is").
 func (op Op) returnsArgument() bool {
 	switch op.K {
-	case "alias", "to-bytes", "nth", "get", "get-k", "aref", "first", "second":
+	case "alias", "to-bytes", "nth", "get", "get-k", "get-ksym", "aref", "first", "second":
 		return true
 	}
 	return false
